@@ -63,6 +63,10 @@ def extra_terms():
     o_age = T.binop("Eq", T.path("blog", "owner", "age"), T.Int(3))
     for a_, b_ in ((o_city, o_pers), (o_pers, o_city), (o_city, o_age), (o_age, o_city)):
         out += [("path", T.binop("And", a_, b_)), ("path", T.binop("Or", a_, T.unop("Not", b_)))]
+    # a lambda body that also mentions a field of the OUTER entity (not prefixed by the range variable)
+    for body in (T.binop("Eq", T.path("c", "score"), typed.F("score")), T.binop("Gt", typed.F("score"), T.path("c", "score")),
+                 T.binop("NotEq", T.path("c", "text"), typed.F("title")), T.binop("And", T.path("c", "flag"), T.binop("Eq", typed.F("title"), T.Str("t1")))):
+        out += [("lambda-outer", T.lam(T.I("comments"), "Any", "c", body)), ("lambda-outer", T.lam(T.I("comments"), "All", "c", body))]
     for l in lams:
         out += [("lambda", l), ("lambda", T.unop("Not", l)), ("lambda", T.binop("And", l, T.binop("Gt", typed.F("score"), T.Int(0)))),
                 ("lambda", T.binop("Or", T.binop("Eq", typed.F("title"), T.Str("t")), l)), ("lambda", T.binop("Eq", l, T.Bool(True)))]
@@ -157,7 +161,7 @@ def uniq_literals(term):
 def classify_exc(e, backend, kind):
     if isinstance(e, exceptions.ODataException):
         return "lib:" + type(e).__name__
-    if isinstance(e, NotImplementedError) and backend == "sa-core" and kind in ("path", "lambda"):
+    if isinstance(e, NotImplementedError) and backend == "sa-core" and kind in ("path", "lambda", "lambda-outer"):
         return "documented:NotImplementedError"
     if isinstance(e, ImportError) and backend == "django" and "GeoDjango" in str(e):
         return "documented:ImportError(requires_gis)"
@@ -278,6 +282,12 @@ def run_backend(backend, kind, term, root_kind):
             for needle in walk(term):
                 if needle not in hay:
                     return "incomplete", "path column %s missing: %s" % (needle, hay[:400])
+        if kind == "lambda-outer":
+            outer_tbl = "sa_post" if backend.startswith("sa") else "vt_dj_post"
+            outer_cols = {st[1] for st in T.subterms(term) if st[0] == "Identifier" and st[1] in ("score", "title")}
+            for col in outer_cols:
+                if ("%s.%s" % (outer_tbl, col)) not in __import__("re").split(r"\bWHERE\b", hay.replace('"', ""), maxsplit=1)[-1]:
+                    return "incomplete-known:orm:lambda-body-outer-field-rebound", "outer column %s.%s missing: %s" % (outer_tbl, col, hay[:300])
         for f in fields:
             if ('"%s"' % f) not in hay and ("." + f) not in hay:
                 return "incomplete", "field %s missing: %s" % (f, hay[:300])
@@ -288,6 +298,9 @@ def run_backend(backend, kind, term, root_kind):
     except Exception as e:  # noqa
         if backend.startswith("sa") and _SES is not None:
             pass
+        if kind == "lambda-outer" and type(e).__name__ in ("FieldError", "InvalidFieldException"):
+            # the outer field is looked up on the collection's model
+            return "incomplete-known:orm:lambda-body-outer-field-rebound", "%s: %s" % (type(e).__name__, str(e)[:160].replace("\n", " "))
         return classify_exc(e, backend, kind), str(e)[:160].replace("\n", " ")
 
 
